@@ -15,7 +15,7 @@ R11.9   forwarded multistream requests are atomic (per-stream validation
         cannot differ between streams).
 """
 import json, os
-from .. import sx, cfg as cfgm, guards, templates as T, absint, ctl, compdb
+from .. import decide, sx, cfg as cfgm, guards, templates as T, absint, ctl, compdb
 from ..guards import I
 from ..compdb import AnalysisBroken
 
@@ -88,6 +88,8 @@ def setup(rep, tier):
     rep.minimum('R11.6', 10)
     rep.minimum('R11.7', 20)
     rep.minimum('R11.8', 12)
+    rep.minimum('R11.10', 1)
+    rep.minimum('R11.11', 2)
     rep.trusted.append('spec/ctl_ranges.json (hand transcription of include/opus_defines.h)')
 
 
@@ -805,7 +807,92 @@ def r11_9(rep, prog, arms_by_disp):
                     rep.holds('R11.9', inst, where, 'sub-arm validation reads only the value%s' % ((' and ' + ','.join(sorted(reads))) if reads else ''))
 
 
+# ------------------------------------------------------------------ R11.10 / R11.11
+try:
+    _SAVE_RESTORE = json.load(open(os.path.join(os.path.dirname(os.path.dirname(os.path.dirname(os.path.abspath(__file__)))), 'spec', 'c11_save_restore.json')))['pairs']
+except (OSError, ValueError, KeyError):
+    _SAVE_RESTORE = []
+
+
+def r11_10(rep, prog):
+    """a field saved into a local and then overwritten inside the same call (`bak = st->f; ... st->f = x; ... st->f = bak`)
+    is restored on every live path from each overwrite to the function's exits.  The per-call overrides of the encoder
+    (forced mode / bandwidth / channels of the multi-frame path, the stereo-to-mono hand-over flag) must not leak into
+    the next call: a forced channel count set mid-stream would otherwise never take effect."""
+    n = 0
+    for f in prog.functions_all:
+        if not f.file.startswith('src/opus_encoder.c') and not f.file.startswith('src/opus_multistream_encoder.c'):
+            continue
+        cf = None
+        for l in f.locals.values():
+            if '*' in l['type'] or '[' in l['type']:
+                continue
+            saves = []
+            for lv, r in decide.find_assign(f, l['name']):
+                rr = sx.strip(r)
+                if sx.kind(rr) == 'field' and sx.A(rr).get('t') != 'a':
+                    saves.append(rr)
+            if len(saves) != 1 or len(decide.find_assign(f, l['name'])) != 1:
+                continue
+            fk = sx.key(saves[0])
+            if cf is None:
+                cf = cfgm.CFG(f)
+            spos = [(b, i) for b, i, s_ in cf.positions() if s_[0] == 'assign' and sx.kind(sx.strip(s_[1])) == 'local' and sx.strip(s_[1])[2] == l['id']]
+            if not spos:
+                continue
+            stores = [(b, i, s_) for b, i, s_ in cf.positions() for x in [s_] if x[0] in ('assign', 'cassign') and sx.key(sx.strip(x[1] if x[0] == 'assign' else x[2])) == fk
+                      and cf.pos_dominates(spos[0], (b, i)) and (b, i) != spos[0]]
+            restores = [(b, i, s_) for b, i, s_ in stores if s_[0] == 'assign' and sx.kind(sx.strip(s_[2])) == 'local' and sx.strip(s_[2])[2] == l['id']]
+            others = [x for x in stores if x not in restores]
+            frozen = any(p_['function'] == f.name and p_['field'] == saves[0][3] for p_ in _SAVE_RESTORE)
+            if not others or (not restores and not frozen):
+                continue      # saved but never overwritten (a read-out), or read-then-update of state with no restore at all: not the idiom
+            n += 1
+            rep.functions.add(f.name)
+            inst = '%s:%s restores `%s` from `%s` after overriding it' % (prog.config, f.name, sx.show(saves[0]), l['name'])
+            where = '%s:%s' % (f.file, sx.line(others[0][2]))
+            # exits that hand back a result: failure returns (negative constants) abandon the call, their state is not specified
+            exits = {b2 for b2, i2, r_ in T.returns_of(cf) if not (len(r_) > 1 and (sx.int_val(sx.strip(r_[1])) or 0) < 0)}
+            rb = {b for b, i, s_ in restores}
+            bad = [o for o in others if not rb or not (o[0] in rb and any(r[0] == o[0] and r[1] > o[1] for r in restores)) and not cf.must_pass_live(o[0], exits, rb)]
+            if bad:
+                rep.violated('R11.10', inst, '%s:%s' % (f.file, sx.line(bad[0][2])), 'the override `%s` can reach the end of the call without `%s = %s`: the per-call override persists into later calls' % (
+                    sx.show(bad[0][2])[:60], sx.show(saves[0]), l['name']), key='%s:%s:restore' % (f.name, l['name']))
+            else:
+                rep.holds('R11.10', inst, where, '%d override(s), %d restore(s) on every live path' % (len(others), len(restores)))
+    return n
+
+
+def r11_11(rep, prog):
+    """the SILK internal rate follows the bandwidth decided for the frame and is afterwards only LOWERED: every later store
+    into silk_mode.desiredInternalSampleRate in the frame encoder is IMIN(constant, itself).  A plain store of a rate cap
+    raises a narrowband request to medium band."""
+    f = prog.fn('opus_encode_frame_native')
+    cf = cfgm.CFG(f)
+    rep.functions.add(f.name)
+    st_ = [(b, i, n) for b, i, n in cf.find(lambda n: n[0] == 'assign' and sx.kind(sx.strip(n[1])) == 'field' and sx.strip(n[1])[3] == 'desiredInternalSampleRate')]
+    consts = [x for x in st_ if sx.int_val(sx.strip(x[2][2])) is not None]
+    later = [x for x in st_ if x not in consts]
+    n = 0
+    # the constant stores are the bandwidth-derived ones: each is guarded by a test of the bandwidth
+    first_ok = all(any('bandwidth' in sx.show(c) for c, pol, gb in cfgm.guards_of(cf, b) if c is not None) for b, i, x in consts)
+    for b, i, x in later + [c for c in consts if not any('bandwidth' in sx.show(g) for g, pol, gb in cfgm.guards_of(cf, c[0]) if g is not None)]:
+        n += 1
+        mm = T_minmax(x[2])
+        inst = '%s:opus_encode_frame_native only lowers the SILK internal rate after deriving it from the bandwidth (`%s`)' % (prog.config, sx.show(x)[:60])
+        where = '%s:%s' % (f.file, sx.line(x))
+        if mm and mm[0] == 'min' and (sx.key(mm[1]) == sx.key(sx.strip(x[1])) or sx.key(mm[2]) == sx.key(sx.strip(x[1]))):
+            rep.holds('R11.11', inst, where, 'IMIN(., itself)')
+        else:
+            rep.violated('R11.11', inst, where, 'not of the form IMIN(cap, st->silk_mode.desiredInternalSampleRate): a rate-dependent cap can RAISE the rate chosen for a narrower bandwidth limit', key='silk-rate-raise:%s' % sx.line(x))
+    if len(consts) < 3:
+        rep.unresolved('R11.11', 'bandwidth-derived stores of desiredInternalSampleRate not found (%d)' % len(consts))
+    return n
+
+
 def check(rep, prog, tier):
+    r11_10(rep, prog)
+    r11_11(rep, prog)
     arms_by_disp = {}
     for fname in DISPATCHERS:
         if not prog.has_fn(fname):
